@@ -13,6 +13,7 @@ from fiddle._src.codegen import py_val_to_cst_converter
 from fiddle._src.codegen.auto_config import experimental_top_level_api as ac_codegen
 
 from fvlib import fam, sigs
+from fvlib.usermods import auto_config as usermods_auto_config
 from fvlib.canon import canon
 from fvlib.notes import note
 from fvrun.spec import Cube, Obligation
@@ -63,7 +64,8 @@ def _conc(v, lo, hi):
 
 LEAVES = [0, -7, 2**70, 1.5, -0.0, 1e308, 5e-324, float('inf'), float('-inf'), float('nan'), 1 + 2j, 1 - 2j, 2j, '', 'a',
           "it's", 'say "x"', 'back\\slash', 'line\nbreak', '\x00', 'é☃', b'', b'\xff\\u0041', True, None, Ellipsis, Color.RED,
-          Outer.Mode.FAST, int, fam.g0, fam.A, slice(1, None, 2), (1, (2,)), frozenset({1}), {1, 2}, fam.NT(1, 2), range(3)]
+          Outer.Mode.FAST, int, fam.g0, fam.A, slice(1, None, 2), (1, (2,)), frozenset({1}), {1, 2}, fam.NT(1, 2), range(3),
+          'dos\r\nline', 'old mac\rline\n', usermods_auto_config.user_fn]
 NLEAF = len(LEAVES)
 _n = [0]
 
@@ -123,7 +125,7 @@ def c12_roundtrip(gen: int, shape: int, li: int, w: int, cx: int, hist: bool, ta
   gen 0: new_codegen, 1: auto_config_codegen; cx: max_expression_complexity (-1 = None); sub: 0 no sub-fixture, 1 the
   designated inner node as a sub-fixture, 2 the middle node (shapes 4 / 5).  The generator raises, or the emitted text
   compiles, runs and yields a configuration canonically equal to the input.
-  require: 0 <= gen <= 1 and 0 <= shape <= 5 and 0 <= li < 37 and 0 <= w <= 5 and -1 <= cx <= 3 and 0 <= sub <= 2
+  require: 0 <= gen <= 1 and 0 <= shape <= 5 and 0 <= li < 40 and 0 <= w <= 5 and -1 <= cx <= 3 and 0 <= sub <= 2
   """
   import crosshair
   gen, shape, li, w, cx, sub = _conc(gen, 0, 1), _conc(shape, 0, 5), _conc(li, 0, NLEAF - 1), _conc(w, 0, 5), _conc(cx, -1, 3), _conc(sub, 0, 2)
@@ -174,7 +176,7 @@ def c12_value_expr(li: int, nest: int) -> bool:
   """
   The expression emitted for a supported value evaluates to an equal value of the same type, or the converter raises.
   nest: 0 bare, 1 [v], 2 (v, 1), 3 {'k': v}, 4 {v: 1}, 5 {v}, 6 [[v], (v,)], 7 NT(v, [v])
-  require: 0 <= li < 37 and 0 <= nest <= 7
+  require: 0 <= li < 40 and 0 <= nest <= 7
   """
   import crosshair
   import libcst as cst
